@@ -196,6 +196,9 @@ Definition fse_build_from_probabilities (t : fse_table) (acc_log : Z) (probs : l
     ROk {| t_max_symbol := t_max_symbol t; t_decode := dec; t_acc_log := acc_log; t_probs := probs;
            t_counter := counter |}.
 
+(** number of states; equals [length (t_decode t)] for every table the builders produce (0 for an empty table) *)
+Definition t_len (t : fse_table) : Z := if t_acc_log t =? 0 then 0 else 2 ^ t_acc_log t.
+
 (** *** one decoder *)
 Definition fse_dec_new (t : fse_table) : fse_entry := match t_decode t with e :: _ => e | [] => entry0 end.
 
@@ -203,11 +206,11 @@ Definition fse_init_state (t : fse_table) (br : rbr) : res (fse_entry * rbr) :=
   if t_acc_log t =? 0 then RErr "TableIsUninitialized"
   else
     let '(v, br) := rbr_get_bits br (t_acc_log t) in
-    if Z.of_nat (length (t_decode t)) <=? v then RPanic "index out of bounds"
+    if t_len t <=? v then RPanic "index out of bounds"
     else ROk (nth_e (t_decode t) v, br).
 
 Definition fse_update_state (t : fse_table) (st : fse_entry) (br : rbr) : res (fse_entry * rbr) :=
   let '(add, br) := rbr_get_bits br (e_bits st) in
   let new_state := e_base st + add in
-  if Z.of_nat (length (t_decode t)) <=? new_state then RPanic "index out of bounds"
+  if t_len t <=? new_state then RPanic "index out of bounds"
   else ROk (nth_e (t_decode t) new_state, br).
